@@ -62,6 +62,10 @@ def gen_case(rng, tier, index):
             # restart the downloader must take it from there
             c.update({"prefilled": True, "move": "after-lsremote", "mode": "yes",
                       "drop": rng.choice([["lib", "root"], ["lib", "root"], ["lib", "mid", "root"]])})
+        elif rng.random() < 0.4:
+            # the uploader edits its checkout (uncommitted) and builds/uploads again: what the archive
+            # says about the upstream *commit* must stay what the commit contains
+            c.update({"hack": True, "move": rng.choice(["never", "never", "after-lsremote"]), "drop": rng.choice([[], [], ["root"]])})
         return c
     feats = {"checkoutscript"} | set(rng.sample(["import", "vars", "tools", "provideVars", "diamond", "fingerprint", "fingerprint",
                                                  "nonreloc", "depenv", "classes", "twins"], rng.randint(2, 6)))
@@ -111,6 +115,8 @@ def directed_cases(tier):
     out = [{"live": True, "prefilled": True, "move": "after-lsremote", "mode": "yes", "drop": d, "jobs": j,
             "seed": 7 + j, "salt": "d%d" % j}
            for d, j in ((["lib", "root"], 1), (["lib", "mid", "root"], 4))]
+    out += [{"live": True, "hack": True, "move": "never", "mode": m, "drop": [], "jobs": 1, "seed": 11, "salt": "h%d" % i}
+            for i, m in enumerate(("yes", "deps"))]
     # a workspace that got everything by download (never checked anything out, only predictions are
     # stored), then a source edit with unchanged recipes, then another download-enabled build
     import random
@@ -221,6 +227,14 @@ def _run_live(case, top, stats, log):
     r = buildsim.bob(pa, ["dev", "--upload", "--download", "no", "root"], {"sched_seed": 1})
     if r.rc != 0:
         raise common.HarnessError("uploader build failed: " + r.output[-400:])
+    if case.get("hack"):
+        # uncommitted local modification in the uploader's source workspace, second uploading build
+        # (a git branch checkout runs on every invocation)
+        common.write_file(os.path.join(pa, "dev", "src", "lib", "1", "workspace", "a.txt"), "uncommitted local hack %s\n" % case["salt"])
+        r = buildsim.bob(pa, ["dev", "--upload", "--download", "no", "root"], {"sched_seed": 3})
+        if r.rc != 0:
+            raise common.HarnessError("uploader build with modified checkout failed: " + r.output[-400:])
+        stats.inc("live_uploader_built_from_modified_checkout")
     old_arts = set(_artifacts(arch))
     arg = {"work": work, "salt": case["salt"]}
     if case.get("prefilled"):
